@@ -1,6 +1,8 @@
 //! mc-tensor: bounded-exhaustive checkers for rten-tensor (C06, C07, C08, C09).
 
+mod c06;
 mod c07;
+mod c08;
 mod iterx;
 mod kinds;
 mod layouts;
@@ -8,7 +10,9 @@ mod layouts;
 fn main() {
     let prop = std::env::args().nth(1).unwrap_or_default();
     match prop.as_str() {
+        "C06" => c06::run(vp_core::Ctx::from_env("C06")),
         "C07" => c07::run(vp_core::Ctx::from_env("C07")),
+        "C08" => c08::run(vp_core::Ctx::from_env("C08")),
         _ => vp_core::machinery_error(&format!("mc-tensor: unknown property '{prop}'")),
     }
 }
